@@ -441,6 +441,9 @@ def run_many(jobs: List[Tuple[str, str, bool, List[str]]], workers: int = 14) ->
     if len(jobs) < 8:
         return [run_driver(*j) for j in jobs]
     import multiprocessing as mp
+    # import everything pydoctor loads lazily (parsers, templates, docutils writers) before forking
+    for f in FMTS:
+        run_driver('def warm(a):\n    """Warm `up`.\n\n    Args:\n        a: x\n    """\n', f, False, [])
     ctxm = mp.get_context("fork")
     with ctxm.Pool(workers) as pool:
         return pool.map(_job, jobs, chunksize=4)
